@@ -629,6 +629,63 @@ func init() {
 	})
 
 	Register(&Suite{
+		Name: "ctcp.send",
+		Prop: []string{"C14"},
+		Fixed: func() []Case {
+			var out []Case
+			for _, k := range []string{"Q", "R"} {
+				for _, ty := range append(append(append([]string{}, ctcpKnown...), ctcpOtherOK...), ctcpBadCmds...) {
+					for _, m := range []string{"", "x", " x", "a b", "\x01"} {
+						out = append(out, Case{k, "nick", ty, m}, Case{k, "#chan", ty, m})
+					}
+				}
+			}
+			return out
+		},
+		Gen: func(r *rand.Rand) Case {
+			ty := Pick(r, append(append(append([]string{}, ctcpKnown...), ctcpOtherOK...), ctcpBadCmds...)...)
+			if r.Intn(8) == 0 {
+				ty = RandBytes(r, r.Intn(4), "AZ az09\x01")
+			}
+			return Case{Pick(r, "Q", "R"), Pick(r, "nick", "#chan", "Nick[x]", "", "a b", ":c"), ty, Pick(r, ctcpTexts...)}
+		},
+		Run: func(c Case) Result {
+			if len(c) < 4 {
+				return Result{Obs: "?args"}
+			}
+			x := ctcpSession("0")
+			lines, panicked := sendCTCP(x, c[0], c[1], c[2], c[3])
+			if panicked {
+				res := Result{Obs: "PANIC", Sig: "panic/" + c[0]}
+				if c[2] != "" {
+					res.Oracle = "send-panic: SendCTCP panicked on a non-empty CTCP type"
+				}
+				return res
+			}
+			if len(lines) != 1 {
+				return Result{Obs: HexList(lines), Oracle: fmt.Sprintf("send-count: %d lines for one SendCTCP", len(lines)), Sig: "count"}
+			}
+			res := Result{Obs: Hex(lines[0]), Sig: "sent/" + c[0]}
+			want := "PRIVMSG "
+			if c[0] == "R" {
+				want = "NOTICE "
+			}
+			if specTagOK(c[2]) {
+				res.Sig += "/tag"
+			} else {
+				res.Sig += "/badtype"
+			}
+			switch {
+			case c[2] == "":
+				res.Oracle = "send-empty: an empty CTCP type was sent"
+			case !strings.HasPrefix(lines[0], want):
+				res.Oracle = "send-kind: a request must be a PRIVMSG and a reply a NOTICE"
+			}
+			return res
+		},
+	})
+
+	Register(&Suite{
 		Name: "ctcp.parsecmd",
 		Prop: []string{"C14"},
 		Fixed: func() []Case {
@@ -808,6 +865,25 @@ func init() {
 			return res
 		},
 	})
+}
+
+// sendCTCP calls Commands.SendCTCP ("Q") or SendCTCPReply ("R") on a connected client and
+// returns the line written, or panicked = true.
+func sendCTCP(x *ctcpSess, kind, target, typ, msg string) (lines []string, panicked bool) {
+	mark := x.s.Mark()
+	func() {
+		defer func() {
+			if recover() != nil {
+				panicked = true
+			}
+		}()
+		if kind == "R" {
+			x.s.C.Cmd.SendCTCPReply(target, typ, msg)
+		} else {
+			x.s.C.Cmd.SendCTCP(target, typ, msg)
+		}
+	}()
+	return x.flush(mark), panicked
 }
 
 // ---- handler registration (suites ctcp.parsecmd, ctcp.table) ----
